@@ -311,6 +311,8 @@ class Gen:
                 forms += ["farith"] * 2 + ["if", "field", "call"]
             elif ty == "bool":
                 forms += ["cmp"] * 4 + ["logic"] * 3 + ["not", "if", "call", "eqc"]
+                if self.has("list"):
+                    forms += ["lcontains", "lempty"]
             elif ty == "str":
                 forms += ["concat", "if", "call", "field"] + (["fstr", "tostr"] if self.has("fstr") else [])
             elif ty == "char":
@@ -400,6 +402,21 @@ class Gen:
             return {"k": "match", "e": {"k": "lcall", "m": "get", "r": var(n), "args": [idx]},
                     "arms": [{"v": "Some", "bs": [x], "g": [], "b": var(x)},
                              {"v": "None", "bs": [], "g": [], "b": self.leaf(ty)}]}
+        if f in ("lcontains", "lempty"):
+            cands = [(n, t) for (n, t) in self.all_vars() if isinstance(t, list) and t[0] == "list"
+                     and (f == "lempty" or self.is_plain(t[1]))]
+            if not cands:
+                # a fresh (possibly empty) list: contains on an empty list still consumes its argument
+                et = r.choice([t for t in self.scalar_tys() if t not in FLOAT_TYS] + (["Tr"] if self.has("tr") else []) or ["i32"])
+                n = self.fresh("l")
+                lst = {"k": "lcall", "m": "concat", "r": {"k": "list", "es": [self.expr(et, 0)]}, "args": [{"k": "list", "es": [self.expr(et, 0)]}]}
+                if f == "lempty":
+                    return block([let(n, ["list", et], lst)], {"k": "lcall", "m": "is_empty", "r": var(n), "args": []})
+                return block([let(n, ["list", et], lst)], {"k": "lcall", "m": "contains", "r": var(n), "args": [self.expr(et, d - 1, True)]})
+            n, t = r.choice(cands)
+            if f == "lempty":
+                return {"k": "lcall", "m": "is_empty", "r": var(n), "args": []}
+            return {"k": "lcall", "m": "contains", "r": var(n), "args": [self.expr(t[1], d - 1, True)]}
         if f == "llen":
             cands = [n for (n, t) in self.all_vars() if isinstance(t, list) and t[0] == "list"]
             if not cands:
@@ -445,9 +462,10 @@ class Gen:
         arms = []
         order = list(variants)
         r.shuffle(order)
-        use_wild = len(order) > 1 and r.random() < 0.3
+        use_wild = len(order) > 1 and r.random() < 0.35
+        cut = r.randint(1, len(order) - 1) if use_wild else len(order)
         for i, (v, ts) in enumerate(order):
-            if use_wild and i == len(order) - 1:
+            if use_wild and i == cut:
                 arms.append({"v": "_", "bs": [], "g": [], "b": self.expr(ty, d - 1)})
                 break
             bs = [self.fresh("m") for _ in ts]
@@ -503,7 +521,7 @@ class Gen:
             if self.has("ret") and self.cur_rt is not None:
                 forms += ["ret"]
             if self.has("list") and self.in_for == 0:
-                forms += ["push"]
+                forms += ["push", "lswap", "lconcat"]
             if self.in_opt_fn and self.has("opt"):
                 forms += ["try"]
         f = r.choice(forms)
@@ -606,6 +624,19 @@ class Gen:
                 return self.stmt_emit(d)
             n, t = r.choice(cands)
             return {"k": "lcall", "m": "push", "r": var(n), "args": [self.expr(t[1], d - 1, True)]}
+        if f in ("lswap", "lconcat"):
+            cands = [(n, t) for (n, t) in self.all_vars() if isinstance(t, list) and t[0] == "list"]
+            if not cands:
+                return self.stmt_emit(d)
+            n, t = r.choice(cands)
+            if f == "lswap":
+                return {"k": "lcall", "m": "swap", "r": var(n),
+                        "args": [ilit("u64", r.choice([0, 1, 2, 7])), ilit("u64", r.choice([0, 1, 3, 9]))]}
+            others = [m for (m, u) in cands if u == t]
+            nn = self.fresh()
+            e = {"k": "lcall", "m": "concat", "r": var(n), "args": [var(r.choice(others))], "plus": r.random() < 0.5}
+            self.declare(nn, t)
+            return let(nn, t, e)
         if f == "try":
             t = self.random_ty(0)
             e = {"k": "try", "e": self.expr(["opt", t], d - 1)}
